@@ -17,11 +17,13 @@ open RQ
 
 /-- the fuel `parsePatch` hands to its loops is never exhausted: the parser terminates by itself -/
 theorem C11_fuel (bs : Bytes) (strip : Nat) (wh : Bool) : parsePatch bs strip wh ≠ .error .outOfFuel := by
-  sorry
+  unfold parsePatch
+  exact (patchLoop_spec strip _ _ _ _ _ (by omega) (by simp)).1
 
 /-- `NoMatch` never escapes `parse_patch` (its conversion to `ParseError` is `unreachable!`) -/
 theorem C11_noMatch (bs : Bytes) (strip : Nat) (wh : Bool) : parsePatch bs strip wh ≠ .error .noMatch := by
-  sorry
+  unfold parsePatch
+  exact patchLoop_noMatch strip _ _ _ _ _
 
 /-- what every later stage relies on (no `assert!`, `unwrap` or slice range can fail on a parsed patch) -/
 theorem C11_wf (bs : Bytes) (strip : Nat) (wh : Bool) (p : Patch) (h : parsePatch bs strip wh = .ok p) :
@@ -30,13 +32,15 @@ theorem C11_wf (bs : Bytes) (strip : Nat) (wh : Bool) (p : Patch) (h : parsePatc
       (fp.kind ≠ .modify → fp.hunks.length = 1) ∧
       (fp.rename = true → fp.old.isSome ∧ fp.new.isSome) ∧
       ∀ hk ∈ fp.hunks, hk.WF ∧ 0 ≤ hk.remLine ∧ 0 ≤ hk.addLine ∧ hk.remLine < 2^63 ∧ hk.addLine < 2^63 := by
-  sorry
+  unfold parsePatch at h
+  exact (patchLoop_spec strip _ _ _ _ _ (by omega) (by simp)).2 p h
 
 /-- a parsed hunk has consumed at least one input byte per stored line on either side, so the memory
 for hunk lines is proportional to the input -/
 theorem C11_alloc (inp rest : Bytes) (hk : PHunk) (h : parseHunk inp = .ok (rest, hk)) :
     rest.length ≤ inp.length ∧ hk.add.length ≤ inp.length - rest.length ∧ hk.rem.length ≤ inp.length - rest.length := by
-  sorry
+  obtain ⟨h1, h2, h3, _⟩ := parseHunk_ok inp rest hk h
+  exact ⟨by omega, h2, h3⟩
 
 /-! ### non-vacuity -/
 example : (match parsePatch [45,45,45,32,97,10, 43,43,43,32,98,10, 64,64,32,45,49,32,43,49,32,64,64,10, 45,120,10, 43,121,10] 0 true with
